@@ -381,7 +381,7 @@ def programs(max_threads):
              "queued-stop-restart-dependent"]
     if max_threads >= 2:
         progs.insert(3, "dependent")
-    return progs + ["stop-vs-enqueue", "stop-vs-join"]
+    return progs + ["stop-vs-enqueue", "stop-vs-join", "clear-while-running"]
 
 
 def _one(tp, program, max_threads, min_threads, prefix, bound):
@@ -496,6 +496,23 @@ def _one(tp, program, max_threads, min_threads, prefix, bound):
             S.spawn(other)
             stop(pool)
             over.wait()
+        elif program == "clear-while-running":
+            # clear() called while a task is executing (it waits for it), then new work: the pool still grows as C10 demands
+            pool.start()
+            gate, running = th.Event(), th.Event()
+            fa = pool.enqueue(_task(S, probe, "a", value=marker["a"], wait_for=gate, then_set=running))
+            running.wait()
+            S.spawn(gate.set)                  # another client lets the task finish while clear() is waiting for it
+            pool.clear()
+            expect(fa, "a")
+            if max_threads >= 2:
+                g2 = th.Event()
+                fw = pool.enqueue(_task(S, probe, "x", value=marker["x"], wait_for=g2))
+                fs = pool.enqueue(_task(S, probe, "y", value=marker["y"], then_set=g2))
+                expect(fw, "x"), expect(fs, "y")
+            else:
+                expect(pool.enqueue(T("g")), "g")
+            stop(pool)
         elif program == "stop-with-queued":
             pool.start()
             gate = th.Event()
